@@ -1042,6 +1042,21 @@ impl<'a> Gen<'a> {
             };
             rs.push(r);
         }
+        // generation filter (C02 territory, see requests/C18.md): inside a function, an id that the
+        // statement binds through a map-pattern entry and also reads on its right-hand side is not
+        // captured from the enclosing frame by the real parser ("'a' not found")
+        let map_bound: Vec<Name> = ts
+            .iter()
+            .filter_map(|t| if let Target::Map(es) = t { Some(es.iter().filter_map(|e| e.target).collect::<Vec<_>>()) } else { None })
+            .flatten()
+            .collect();
+        for r in rs.iter_mut() {
+            if let Rhs::Ref(k) = r {
+                if map_bound.contains(k) {
+                    *r = Rhs::Lit(self.rng.range(-3, 40));
+                }
+            }
+        }
         Act::Pat(exp, ts, rs)
     }
 
@@ -1211,6 +1226,21 @@ impl<'a> Gen<'a> {
                 let name = *self.rng.pick(&mods);
                 let is_dir = self.rng.chance(1, 4);
                 let p = MPath { dir: d.folder(), name, is_dir };
+                if !layout.contains(&p) {
+                    layout.push(p);
+                }
+            }
+        }
+        // a folder `m/` with helper modules but no main.koto next to `m.koto` (the file must still win)
+        let file_only: Vec<MPath> = layout
+            .iter()
+            .filter(|p| p.dir.is_empty() && !p.is_dir && !layout.iter().any(|q| q.dir.is_empty() && q.is_dir && q.name == p.name))
+            .cloned()
+            .collect();
+        for f in &file_only {
+            if self.rng.chance(1, 6) {
+                let name = *self.rng.pick(&mods);
+                let p = MPath { dir: vec![f.name], name, is_dir: false };
                 if !layout.contains(&p) {
                     layout.push(p);
                 }
@@ -1428,6 +1458,124 @@ fn wild_family(rng: &mut Rng) -> Scenario {
     Scenario { run_import_tests: rng.chance(2, 3), host_tests: false, prelude: vec![], files, ops, family: "wildcards".into(), export_alias: false }
 }
 
+/// exported-assignment family: a module re-exports parts of another module through every target shape
+/// the grammar allows under `export` (id, `_`, map pattern with plain / `as` / string-key / ignored
+/// entries; single and multi-target; export keyword or export_top_level_ids), and the bound ids are
+/// observed through all four channels: importer (`import` + display, `from … import`), wildcard import,
+/// host `exports()`, and a later non-local read inside a function created before the statement.
+fn patterns_family(rng: &mut Rng) -> Scenario {
+    let mut mk = 0u32;
+    let mut next = || {
+        mk += 1;
+        mk
+    };
+    let keys: [Name; 4] = [60, 61, 62, 63];
+    let entry = |rng: &mut Rng| -> PEntry {
+        let key = *rng.pick(&keys);
+        let target = match rng.weighted(&[4, 4, 1]) {
+            0 => Some(key),
+            1 => Some(*rng.pick(&[64, 65, 66, 60, 61])),
+            _ => None,
+        };
+        PEntry { key, target, str_key: target.is_some() && rng.chance(1, 4) }
+    };
+    // statement over `src` (a local holding m0's exports map)
+    let stmt = |rng: &mut Rng, exp: bool, src: Name| -> Act {
+        let n = 1 + rng.weighted(&[2, 4, 3]);
+        let mut ts = vec![];
+        let mut rs = vec![];
+        let map_at = rng.below(n);
+        for i in 0..n {
+            if i == map_at || rng.chance(1, 4) {
+                let k = 1 + rng.below(3);
+                ts.push(Target::Map((0..k).map(|_| entry(rng)).collect()));
+                rs.push(Rhs::Ref(src));
+            } else if n >= 2 && rng.chance(1, 5) {
+                ts.push(Target::Ignored);
+                rs.push(Rhs::Lit(rng.range(0, 9)));
+            } else {
+                ts.push(Target::Id(*rng.pick(&[67, 68, 64, 60])));
+                rs.push(if rng.chance(3, 4) { Rhs::Lit(rng.range(100, 199)) } else { Rhs::Ref(src) });
+            }
+        }
+        if n == 1 && !matches!(ts[0], Target::Map(_)) {
+            // single plain target: keep one value
+        } else if n >= 2 && rng.chance(1, 10) {
+            rs.pop(); // one value too few: the last target gets null (or fails, for a map pattern)
+            if rs.len() < 2 {
+                rs.push(Rhs::Lit(1));
+            }
+        }
+        Act::Pat(exp, ts, rs)
+    };
+    let all_ids: [Name; 9] = [60, 61, 62, 63, 64, 65, 66, 67, 68];
+    let mut files = vec![];
+    // m0: the source of values
+    let mut b0 = vec![TAct::A(Act::Print(next()))];
+    for (j, k) in keys.iter().enumerate() {
+        b0.push(TAct::A(Act::Export(*k, 10 + j as i64)));
+    }
+    files.push(FileDef { path: MPath { dir: vec![], name: 0, is_dir: false }, body: Some(b0) });
+    // m1: re-exports through patterns
+    let src: Name = if rng.chance(1, 3) { 69 } else { 0 };
+    let mut b1 = vec![TAct::A(Act::Print(next()))];
+    b1.push(TAct::A(Act::Import(vec![Item { name: 0, as_: if src == 0 { None } else { Some(src) } }])));
+    // a function created BEFORE the statements: reads the ids as non-locals when it runs
+    let tm = next();
+    let reads: Vec<Act> = all_ids.iter().filter(|_| rng.chance(1, 3)).map(|k| Act::Show(next(), *k)).collect();
+    b1.push(TAct::Test(70, tm, reads));
+    let n_stmts = 1 + rng.below(3);
+    for _ in 0..n_stmts {
+        let exp = rng.chance(4, 5);
+        b1.push(TAct::A(stmt(rng, exp, src)));
+        if rng.chance(1, 4) {
+            b1.push(TAct::A(Act::Assign(*rng.pick(&all_ids), 500 + rng.below(9) as i64)));
+        }
+    }
+    let mm = next();
+    let reads: Vec<Act> = all_ids.iter().filter(|_| rng.chance(1, 3)).map(|k| Act::Show(next(), *k)).collect();
+    b1.push(TAct::Main(mm, reads));
+    files.push(FileDef { path: MPath { dir: vec![], name: 1, is_dir: false }, body: Some(b1) });
+    // host
+    let mut ops = vec![];
+    let mut body = vec![TAct::A(Act::Import(vec![Item { name: 1, as_: None }])), TAct::A(Act::Show(next(), 1))];
+    let items: Vec<Item> = all_ids.iter().filter(|_| rng.chance(1, 4)).map(|k| Item { name: *k, as_: None }).collect();
+    if !items.is_empty() {
+        body.push(TAct::A(Act::From(1, items.clone())));
+        for it in &items {
+            body.push(TAct::A(Act::Show(next(), it.name)));
+        }
+    }
+    ops.push(Op { dir: vec![], export_top: false, body });
+    let et = rng.chance(1, 2);
+    let mut body = vec![TAct::A(Act::Try(1, next())), TAct::A(Act::FromAll(1))];
+    if et {
+        // avoid the F-C18-2 shape: m1 is not a local here (string import above binds nothing)
+    }
+    for k in all_ids.iter() {
+        if rng.chance(1, 2) {
+            body.push(TAct::A(Act::Show(next(), *k)));
+        }
+    }
+    ops.push(Op { dir: vec![], export_top: et, body });
+    // host-level exported assignment (export keyword or export_top_level_ids), read back by the next script
+    let et2 = rng.chance(1, 2);
+    let hsrc: Name = 0;
+    let mut body = vec![TAct::A(Act::Import(vec![Item { name: 0, as_: None }]))];
+    let exp = !et2 || rng.chance(1, 2);
+    body.push(TAct::A(stmt(rng, exp, hsrc)));
+    ops.push(Op { dir: vec![], export_top: et2, body });
+    let mut body = vec![];
+    for k in all_ids.iter() {
+        if rng.chance(1, 2) {
+            body.push(TAct::A(Act::Show(next(), *k)));
+        }
+    }
+    body.push(TAct::A(Act::Print(next())));
+    ops.push(Op { dir: vec![], export_top: false, body });
+    Scenario { run_import_tests: true, host_tests: false, prelude: vec![], files, ops, family: "patterns".into(), export_alias: false }
+}
+
 /// bounded-exhaustive family: every import graph over 3 flat modules in which each module imports
 /// any subset of {m0,m1,m2}, × which module fails and where, × a fixed history importing all three
 /// (guarded, so that every module is attempted) and then all three again
@@ -1548,6 +1696,30 @@ impl Ctx {
         if sc.ops.iter().any(|o| o.export_top) {
             self.rep.bump("scenario_with_export_top_level_ids");
         }
+        {
+            let mut all_acts: Vec<(&Act, bool)> = vec![];
+            for f in &sc.files {
+                if let Some(b) = &f.body {
+                    all_acts.extend(acts_of(b).into_iter().map(|a| (a, false)));
+                }
+            }
+            for o in &sc.ops {
+                all_acts.extend(acts_of(&o.body).into_iter().map(|a| (a, o.export_top)));
+            }
+            for (a, et) in all_acts {
+                if let Act::Pat(e, ts, _) = a {
+                    let has_map = ts.iter().any(|t| matches!(t, Target::Map(_)));
+                    let has_as = ts.iter().any(|t| matches!(t, Target::Map(es) if es.iter().any(|x| x.target.is_some() && x.target != Some(x.key))));
+                    self.rep.bump(&format!(
+                        "pattern_stmt={}{}{}{}",
+                        if *e { "export" } else if et { "top-level-ids" } else { "local" },
+                        if ts.len() > 1 { "+multi" } else { "+single" },
+                        if has_map { "+map" } else { "" },
+                        if has_as { "+as" } else { "" }
+                    ));
+                }
+            }
+        }
         if sc.run_import_tests {
             self.rep.bump("scenario_with_run_import_tests");
         }
@@ -1622,7 +1794,7 @@ fn main() {
     kvh::quiet_panics();
     let args = Args::parse();
     let mut rep = Report::new("C18", &args);
-    rep.rule = "case = scenario (settings + module files + history of host scripts run by one runtime); generated by seeded graph families (chain, diamond, cycles 1-3, failing top level/@test/@main, file and directory modules), a wildcard-import family (overlapping export keys, import orders with repeats, closures created at different points), a random file-system/history generator, a bounded-exhaustive sweep over all 3-module import graphs x failure placements, and the corpus; distinct = distinct request lines; non-trivial = at least one module file, one operation and two module statements".into();
+    rep.rule = "case = scenario (settings + module files + history of host scripts run by one runtime); generated by seeded graph families (chain, diamond, cycles 1-3, failing top level/@test/@main, file and directory modules), a wildcard-import family (overlapping export keys, import orders with repeats, closures created at different points), an exported-assignment family (every assignment-target shape allowed under export: ids, `_`, map patterns with plain/`as`/string-key/ignored entries, single and multi-target, export keyword and export_top_level_ids; observed via importer, wildcard import, host exports() and non-local reads in functions), a random file-system/history generator, a bounded-exhaustive sweep over all 3-module import graphs x failure placements, and the corpus; distinct = distinct request lines; non-trivial = at least one module file, one operation and two module statements".into();
     rep.max_samples = 6;
     let open: Vec<String> = rep.known_open().iter().filter_map(|e| e.get("id").and_then(|x| x.as_str()).map(|s| s.to_string())).collect();
     let drv = if args.driver.is_empty() { None } else { Some(Driver::spawn(&args.driver)) };
@@ -1719,6 +1891,11 @@ fn main() {
 
     // 3. graph families and random scenarios
     let (n_graph, n_random) = if thorough { (12000, 40000) } else { (1200, 3000) };
+    let n_pat = if thorough { 8000 } else { 800 };
+    for _ in 0..n_pat {
+        let sc = patterns_family(&mut rng);
+        cx.one(&sc);
+    }
     let n_wild = if thorough { 6000 } else { 600 };
     for _ in 0..n_wild {
         let sc = wild_family(&mut rng);
